@@ -21,13 +21,25 @@ const NC: usize = 5;
 #[derive(Clone, Debug, Serialize, Deserialize, PartialEq)]
 enum Op {
     /// set_default(c) on thread t, guard kept on t's stack
-    Open { t: u8, c: u8 },
+    /// (`via`: through `tracing::collect::set_default(collector)` - the collector by value, a
+    /// fresh Dispatch made by the call - instead of `dispatch::set_default(&dispatch)`; likewise
+    /// for PanicScope / SetGlobal)
+    Open {
+        t: u8,
+        c: u8,
+        #[serde(default)]
+        via: bool,
+        /// (with `via`) the collector given away emits an event from its Drop impl, which runs
+        /// when this scope closes
+        #[serde(default)]
+        drop_emits: bool,
+    },
     /// drop t's innermost guard (ignored when t has none)
     Close { t: u8 },
     /// with_default(c, || { emit; panic }) on t, caught
-    PanicScope { t: u8, c: u8 },
+    PanicScope { t: u8, c: u8, #[serde(default)] via: bool },
     /// set_global_default(c) attempted from t
-    SetGlobal { t: u8, c: u8 },
+    SetGlobal { t: u8, c: u8, #[serde(default)] via: bool },
     /// emit through macro callsite `cs` (0..=2 events, 3 span) on t
     Emit { t: u8, cs: u8 },
     /// like Emit, but the receiving collector panics inside the callback; the thread catches it
@@ -67,6 +79,66 @@ fn emit(cs: u8) {
     }
 }
 
+/// a collector (forwarding to recorder `.0`) that emits one event when it is dropped, i.e. when
+/// the scope that holds its only Dispatch closes: the thread is then back in the enclosing scope
+struct DropEmitter(Arc<RecCollector>);
+impl Drop for DropEmitter {
+    fn drop(&mut self) {
+        tracing::warn!(target: "c02", "collector dropped");
+    }
+}
+impl tracing_core::Collect for DropEmitter {
+    fn on_register_dispatch(&self, d: &Dispatch) {
+        self.0.on_register_dispatch(d)
+    }
+    fn register_callsite(&self, m: &'static tracing_core::Metadata<'static>) -> tracing_core::Interest {
+        self.0.register_callsite(m)
+    }
+    fn enabled(&self, m: &tracing_core::Metadata<'_>) -> bool {
+        self.0.enabled(m)
+    }
+    fn max_level_hint(&self) -> Option<tracing_core::LevelFilter> {
+        self.0.max_level_hint()
+    }
+    fn new_span(&self, a: &tracing_core::span::Attributes<'_>) -> tracing_core::span::Id {
+        self.0.new_span(a)
+    }
+    fn record(&self, s: &tracing_core::span::Id, v: &tracing_core::span::Record<'_>) {
+        self.0.record(s, v)
+    }
+    fn record_follows_from(&self, s: &tracing_core::span::Id, f: &tracing_core::span::Id) {
+        self.0.record_follows_from(s, f)
+    }
+    fn event_enabled(&self, e: &tracing_core::Event<'_>) -> bool {
+        self.0.event_enabled(e)
+    }
+    fn event(&self, e: &tracing_core::Event<'_>) {
+        self.0.event(e)
+    }
+    fn enter(&self, s: &tracing_core::span::Id) {
+        self.0.enter(s)
+    }
+    fn exit(&self, s: &tracing_core::span::Id) {
+        self.0.exit(s)
+    }
+    fn clone_span(&self, s: &tracing_core::span::Id) -> tracing_core::span::Id {
+        self.0.clone_span(s)
+    }
+    fn try_close(&self, s: tracing_core::span::Id) -> bool {
+        self.0.try_close(s)
+    }
+    fn current_span(&self) -> tracing_core::span::Current {
+        self.0.current_span()
+    }
+    unsafe fn downcast_raw(&self, id: std::any::TypeId) -> Option<std::ptr::NonNull<()>> {
+        if id == std::any::TypeId::of::<Self>() {
+            Some(std::ptr::NonNull::from(self).cast())
+        } else {
+            self.0.downcast_raw(id)
+        }
+    }
+}
+
 fn current_id() -> Option<u32> {
     dispatch::get_default(|d| d.downcast_ref::<RecCollector>().map(|r| r.0.id))
 }
@@ -74,8 +146,12 @@ fn current_id() -> Option<u32> {
 struct World {
     st: Stepper<TState>,
     disp: Vec<Option<Dispatch>>,
+    /// the recorders 0..=2 themselves (shared between every Dispatch made for them)
+    arcs: Vec<Option<Arc<RecCollector>>>,
     shared: Vec<Option<Arc<Shared>>>,
     stacks: Vec<Vec<u8>>,
+    /// parallel to `stacks`: closing this scope drops a collector that emits
+    emitters: Vec<Vec<bool>>,
     global: Option<u8>,
 }
 
@@ -86,17 +162,19 @@ impl World {
                 self.disp[c] = Some(Dispatch::none());
                 return Ok(self.disp[c].clone().unwrap());
             }
-            let (d, s) = self.st.run(t, move |_| {
+            let (d, s, arc) = self.st.run(t, move |_| {
                 let (col, s) = RecCollector::new(c as u32, FilterSpec::accept_all(), false);
                 if c == 3 {
                     let leaked: &'static RecCollector = Box::leak(Box::new(col));
-                    (Dispatch::from_static(leaked), s)
+                    (Dispatch::from_static(leaked), s, None)
                 } else {
-                    (Dispatch::new(col), s)
+                    let arc = Arc::new(col);
+                    (Dispatch::new(arc.clone()), s, Some(arc))
                 }
             })?;
             s.take(); // creation-time calls (on_register_dispatch) are not emissions
             self.disp[c] = Some(d);
+            self.arcs[c] = arc;
             self.shared[c] = Some(s);
         }
         Ok(self.disp[c].clone().unwrap())
@@ -128,8 +206,10 @@ fn run_case(case: &Case) -> Outcome {
     let mut w = World {
         st: Stepper::new(NT),
         disp: vec![None; NC],
+        arcs: vec![None; NC],
         shared: vec![None; NC],
         stacks: vec![vec![]; NT],
+        emitters: vec![vec![]; NT],
         global: None,
     };
     let mut classes: Vec<String> = vec![];
@@ -148,14 +228,31 @@ fn run_case(case: &Case) -> Outcome {
 
     for (i, op) in case.ops.iter().enumerate() {
         match *op {
-            Op::Open { t, c } => {
+            Op::Open { t, c, via, drop_emits } => {
                 let (t, c) = (t as usize % NT, c as usize % NC);
                 let d = match w.dispatch(t, c) {
                     Ok(d) => d,
                     Err(e) => fail!(i, "panic: collector creation", "{e}"),
                 };
-                if let Err(e) = w.st.run(t, move |s| s.guards.push(dispatch::set_default(&d))) {
+                let arc = if via { w.arcs[c].clone() } else { None };
+                let by_value = arc.is_some();
+                let emitter = by_value && drop_emits;
+                if let Err(e) = w.st.run(t, move |s| {
+                    s.guards.push(match arc {
+                        Some(a) if emitter => tracing::collect::set_default(DropEmitter(a)),
+                        Some(a) => tracing::collect::set_default(a),
+                        None => dispatch::set_default(&d),
+                    })
+                }) {
                     fail!(i, "panic: set_default", "{e}");
+                }
+                w.emitters[t].push(emitter);
+                if by_value {
+                    // (the fresh Dispatch announces itself to the collector: not an emission)
+                    if let Some(s) = &w.shared[c] {
+                        s.take();
+                    }
+                    classes.push("collector_given_by_value".into());
                 }
                 w.stacks[t].push(c as u8);
                 if w.global.is_none() {
@@ -165,23 +262,44 @@ fn run_case(case: &Case) -> Outcome {
             Op::Close { t } => {
                 let t = t as usize % NT;
                 if w.stacks[t].pop().is_some() {
+                    let emitter = w.emitters[t].pop().unwrap_or(false);
+                    if emitter {
+                        w.drain();
+                    }
                     if let Err(e) = w.st.run(t, |s| drop(s.guards.pop())) {
                         fail!(i, "panic: guard drop", "{e}");
                     }
+                    if emitter {
+                        // the collector of the closed scope is dropped when the thread is already
+                        // back in the enclosing scope: its parting event belongs there
+                        let want = w.receiver(t);
+                        let logs = w.drain();
+                        let ev: Vec<(u8, usize)> = logs.iter().map(|(c, calls)| (*c, calls.iter().filter(|x| x.kind == Kind::Event).count())).filter(|x| x.1 > 0).collect();
+                        let want_ev: Vec<(u8, usize)> = want.map(|c| vec![(c, 1)]).unwrap_or_default();
+                        if ev != want_ev {
+                            fail!(i, "event emitted while a scope closes is not delivered to the enclosing scope", "deliveries (collector,count) {ev:?}, expected {want_ev:?}; stacks {:?} global {:?}", w.stacks, w.global);
+                        }
+                        classes.push("collector_emits_from_drop_while_scope_closes".into());
+                    }
                 }
             }
-            Op::PanicScope { t, c } => {
+            Op::PanicScope { t, c, via } => {
                 let (t, c) = (t as usize % NT, c as usize % NC);
                 let d = match w.dispatch(t, c) {
                     Ok(d) => d,
                     Err(e) => fail!(i, "panic: collector creation", "{e}"),
                 };
+                let arc = if via { w.arcs[c].clone() } else { None };
                 let r = w.st.run(t, move |_| {
                     let r = std::panic::catch_unwind(std::panic::AssertUnwindSafe(|| {
-                        dispatch::with_default(&d, || {
+                        let body = || {
                             emit(0);
                             panic!("scripted panic inside with_default");
-                        })
+                        };
+                        match arc {
+                            Some(a) => tracing::collect::with_default(a, body),
+                            None => dispatch::with_default(&d, body),
+                        }
                     }));
                     r.is_err()
                 });
@@ -202,16 +320,27 @@ fn run_case(case: &Case) -> Outcome {
                 }
                 classes.push("panic_scope".into());
             }
-            Op::SetGlobal { t, c } => {
+            Op::SetGlobal { t, c, via } => {
                 let (t, c) = (t as usize % NT, c as usize % NC);
                 let d = match w.dispatch(t, c) {
                     Ok(d) => d,
                     Err(e) => fail!(i, "panic: collector creation", "{e}"),
                 };
-                let r = match w.st.run(t, move |_| dispatch::set_global_default(d).is_ok()) {
+                let arc = if via { w.arcs[c].clone() } else { None };
+                let by_value = arc.is_some();
+                let r = match w.st.run(t, move |_| match arc {
+                    Some(a) => tracing::collect::set_global_default(a).is_ok(),
+                    None => dispatch::set_global_default(d).is_ok(),
+                }) {
                     Ok(r) => r,
                     Err(e) => fail!(i, "panic: set_global_default", "{e}"),
                 };
+                if by_value {
+                    if let Some(s) = &w.shared[c] {
+                        s.take();
+                    }
+                    classes.push("collector_given_by_value".into());
+                }
                 global_attempts += 1;
                 let want = w.global.is_none();
                 if r != want {
@@ -298,9 +427,10 @@ fn run_case(case: &Case) -> Outcome {
             }
             Op::EndThread { t } => {
                 let t = t as usize % NT;
-                if w.st.started(t) {
+                if w.st.started(t) && !w.emitters[t].iter().any(|e| *e) {
                     w.st.finish(t);
                     w.stacks[t].clear();
+                    w.emitters[t].clear();
                     active_before_global[t] = false;
                     classes.push("thread_restart".into());
                 }
@@ -343,10 +473,10 @@ impl Property for C02 {
         let t = 0u8..NT as u8;
         let c = 0u8..NC as u8;
         let op = prop_oneof![
-            5 => (t.clone(), c.clone()).prop_map(|(t, c)| Op::Open { t, c }),
+            5 => (t.clone(), c.clone(), proptest::bool::weighted(0.3), proptest::bool::weighted(0.4)).prop_map(|(t, c, via, drop_emits)| Op::Open { t, c, via, drop_emits }),
             4 => t.clone().prop_map(|t| Op::Close { t }),
-            1 => (t.clone(), c.clone()).prop_map(|(t, c)| Op::PanicScope { t, c }),
-            2 => (t.clone(), c.clone()).prop_map(|(t, c)| Op::SetGlobal { t, c }),
+            1 => (t.clone(), c.clone(), proptest::bool::weighted(0.3)).prop_map(|(t, c, via)| Op::PanicScope { t, c, via }),
+            2 => (t.clone(), c.clone(), proptest::bool::weighted(0.4)).prop_map(|(t, c, via)| Op::SetGlobal { t, c, via }),
             8 => (t.clone(), 0u8..4).prop_map(|(t, cs)| Op::Emit { t, cs }),
             1 => (t.clone(), 0u8..4).prop_map(|(t, cs)| Op::EmitPanic { t, cs }),
             2 => t.clone().prop_map(|t| Op::Query { t }),
@@ -356,10 +486,10 @@ impl Property for C02 {
         // half of the cases: plain op soup. other half: prefix (scopes/emits, no global) then a
         // late SetGlobal then more ops, which is the shape the thread-local cache is wrong for.
         let soup = proptest::collection::vec(op.clone(), 0..max).prop_map(|ops| Case { ops });
-        let late = (proptest::collection::vec(op.clone(), 1..max / 2), 0u8..NT as u8, 0u8..NC as u8, proptest::collection::vec(op, 1..max / 2), any::<u16>())
-            .prop_map(|(pre, t, c, post, _)| {
+        let late = (proptest::collection::vec(op.clone(), 1..max / 2), 0u8..NT as u8, 0u8..NC as u8, proptest::collection::vec(op, 1..max / 2), any::<bool>())
+            .prop_map(|(pre, t, c, post, via)| {
                 let mut ops: Vec<Op> = pre.into_iter().filter(|o| !matches!(o, Op::SetGlobal { .. })).collect();
-                ops.push(Op::SetGlobal { t, c });
+                ops.push(Op::SetGlobal { t, c, via });
                 ops.extend(post);
                 Case { ops }
             });
@@ -370,7 +500,7 @@ impl Property for C02 {
         run_case(case)
     }
     fn rule(&self) -> String {
-        "histories of <=24 (thorough <=40) ops {Open,Close,PanicScope,SetGlobal,Emit(3 event + 1 span macro callsites),EmitPanic(collector panics inside the callback, caught),Query,EndThread} over 4 stepped OS threads and 5 dispatchers (3 Dispatch::new recorders, 1 Dispatch::from_static recorder, Dispatch::none()), one fresh process per history; half of the cases force a SetGlobal strictly inside the history. non-trivial: a thread that used a scope, emitted or queried before the first successful set_global_default later emits with no scope of its own while another thread holds one; distinct by op list".into()
+        "histories of <=24 (thorough <=40) ops {Open,Close,PanicScope,SetGlobal (each through the dispatch:: functions with a Dispatch, or through tracing::collect::* with the collector given by value),Emit(3 event + 1 span macro callsites),EmitPanic(collector panics inside the callback, caught),Query,EndThread} over 4 stepped OS threads and 5 dispatchers (3 Dispatch::new recorders, 1 Dispatch::from_static recorder, Dispatch::none()), one fresh process per history; half of the cases force a SetGlobal strictly inside the history. non-trivial: a thread that used a scope, emitted or queried before the first successful set_global_default later emits with no scope of its own while another thread holds one; distinct by op list".into()
     }
     fn assumptions(&self) -> Vec<String> {
         vec![
